@@ -395,7 +395,7 @@ PROPS = {
     },
     "C13": {
         "modules": ["Stun.Properties.C13"],
-        "theorems": ["Stun.C13.collect_twice", "Stun.C13.exactly_one_terminal", "Stun.C13.step_spec", "Stun.C13.inv_init", "Stun.C13.after_close",
+        "theorems": ["Stun.C13.fresh_history", "Stun.C13.closed_forever", "Stun.C13.collect_twice", "Stun.C13.exactly_one_terminal", "Stun.C13.step_spec", "Stun.C13.inv_init", "Stun.C13.after_close",
                      "Stun.C13.start_ok_iff", "Stun.C13.stop_spec", "Stun.C13.process_spec", "Stun.C13.collect_spec",
                      "Stun.C13.close_spec"],
         "streams": ["agent-seq"],
